@@ -41,10 +41,18 @@ const PI: f64 = std::f64::consts::PI;
 const TWO_PI: f64 = 2.0 * PI;
 /// max |fast_atan2 − atan2| (measured 2.035e-4 at the octant diagonals) with a little slack
 const ATAN_ERR: f64 = 2.1e-4;
-/// normalised radial deviation bounds: measured maxima 3.2e-3 (quadratics, full 45° step) and 1.97e-3
-/// (cubics, full 90° step: lyon's alpha formula gives kappa = 0.5486 for a quarter turn), × 3
-const QUAD_DEV: f64 = 1.0e-2;
-const CUBIC_DEV: f64 = 6.0e-3;
+/// normalised radial deviation bounds = the bounds PROVED for exact arithmetic in Props/C13.lean and
+/// Props/C13b.lean (`arc_quads_near_ellipse_real`: 3.2e-3 for steps up to 45 degrees, exact maximum
+/// 3.136e-3; `arc_cubics_near_ellipse_real`: 2.0e-3 for steps up to 90 degrees, exact maximum
+/// 1.963e-3 = 1 - sqrt(1 - (8 - 3 sqrt 7)/16): lyon's alpha formula gives kappa = 0.5486 for a quarter
+/// turn); rounding is covered by the allowance added where the bound is used.  (Until the bounds were
+/// theorems these constants were 3 x the measured maxima: 1e-2 / 6e-3.)
+const QUAD_DEV: f64 = 3.2e-3;
+const CUBIC_DEV: f64 = 2.0e-3;
+/// the former bounds (3 x measured), kept as a cap where the rounding allowance of the proved bounds
+/// grows without limit (eccentricity beyond 1e6): the oracle is nowhere looser than it was
+const QUAD_DEV_CAP: f64 = 1.0e-2;
+const CUBIC_DEV_CAP: f64 = 6.0e-3;
 
 fn lyon_eps<S: Fl>() -> f64 {
     S::EPSILON.f()
@@ -232,7 +240,9 @@ fn bezier_oracle<S: Fl>(
         && plain_quads.iter().zip(quads).all(|(a, b)| a.from == b.0.from && a.ctrl == b.0.ctrl && a.to == b.0.to);
     orc.check(same || quads.iter().any(|q| !q.0.ctrl.x.finite()), &cl("quads/with_t-same"), "generic", || "for_each_quadratic_bezier differs from _with_t".into());
 
-    for (kind, step_max, n, dev_bound) in [("quads", PI / 4.0, quads.len(), QUAD_DEV), ("cubics", PI / 2.0, cubics.len(), CUBIC_DEV)] {
+    for (kind, step_max, n, dev_bound, dev_cap) in
+        [("quads", PI / 4.0, quads.len(), QUAD_DEV, QUAD_DEV_CAP), ("cubics", PI / 2.0, cubics.len(), CUBIC_DEV, CUBIC_DEV_CAP)]
+    {
         let endp = |i: usize| -> ((f64, f64), (f64, f64)) {
             if kind == "quads" {
                 (pf(quads[i].0.from), pf(quads[i].0.to))
@@ -287,7 +297,10 @@ fn bezier_oracle<S: Fl>(
         let step = eff / n as f64 * sgn;
         let det = e.rx.abs() * e.ry.abs() * step.sin().abs();
         let tiny = kind == "quads" && det <= lyon_eps::<S>() * 1.01;
-        let dev_tol = dev_bound + 64.0 * S::EPS * (1.0 + (e.cx.abs().max(e.cy.abs())) / e.rmin()) * e.ecc().min(1e6);
+        // proved bound + rounding allowance proportional to the conditioning (offset / smaller radius,
+        // eccentricity); never above the former bound with its capped allowance
+        let allow = 64.0 * S::EPS * (1.0 + (e.cx.abs().max(e.cy.abs())) / e.rmin());
+        let dev_tol = (dev_bound + allow * e.ecc()).min(dev_cap + allow * e.ecc().min(1e6));
         // `Line::intersection` works with cross products of absolute positions `p × (p + v)`: a-priori
         // rounding bound 4·eps·M²·|v| / det on the control point (M = distance from the origin,
         // v = tangent, det = cross product of the tangents), here in units of the smaller radius
